@@ -432,6 +432,8 @@ def expected_obs(case):
     """what df_sync / df_reindex must return, from the statement"""
     k = case['kind']; tr = case['tree']; lvs = leaves(tr)
     how = case['how']
+    if how is None:                      # df_reindex(obj, None): no index prescribed, the collection comes back as it is
+        return jcanon(tr)
     if k == 'reindex' and isinstance(how, dict):
         how = dict(how, direct=True)
     target = prescribed(lvs, how)
@@ -541,11 +543,12 @@ def run_case(case):
                           ['C', sorted(colcode(c) for c in r)] if all(known_name(c) for c in r) else ['C?', [str(c) for c in r]])
         if k == 'index':
             r = df_index(obj, H())
-            return 'ok', (None if r is None else ['n', int(r)] if isinstance(r, (int, np.integer)) else ['I', cdays(r)])
+            return 'ok', (None if r is None else ['n', int(r)] if isinstance(r, (int, np.integer)) else ['I', cdays(r)] if isinstance(r, pd.Index) else ['not-an-index', type(r).__name__])
         before = snap(obj)
         def call(m, same):
             mm = M() if same else m
-            r = df_reindex(obj, H(), method=mm) if k == 'reindex' else df_sync(obj, H(), mm, spelled(case, 'columns', case['columns']))
+            cols = False if (case.get('columns') is None and case.get('colfalse')) else spelled(case, 'columns', case.get('columns'))
+            r = df_reindex(obj, H(), method=mm) if k == 'reindex' else df_sync(obj, H(), mm, cols)
             return canon(r, reg)
         obs = call(None, True)
         _EXTRA[0] = followups(case, call, obs, reg, before, obj)
@@ -574,7 +577,7 @@ def impl(case):
     how = case['how']
     if k == 'reindex' and isinstance(how, dict):
         how = dict(how, direct=True)
-    target = prescribed(lvs, how)
+    target = prescribed(lvs, how) if how is not None else None
     if k == 'columns':
         C = common_columns(lvs, case['how'])
         exp = None if C is None else ['C', C]
@@ -615,7 +618,7 @@ def nontrivial(case, result):
 
 def shape(case):
     h = case['how']
-    return '%s:%s:%s' % (case['kind'] + ('-np2' if any('A2' in l for l in case_leaves(case)) else '-np' if any('A' in l for l in case_leaves(case)) else ''), 'explicit' if isinstance(h, dict) else h, case.get('method'))
+    return '%s:%s:%s' % (case['kind'] + ('-np2' if any('A2' in l for l in case_leaves(case)) else '-np' if any('A' in l for l in case_leaves(case)) else ''), 'explicit' if isinstance(h, dict) else h, case.get('method'))   # h None: df_reindex(obj, None)
 
 # ------------------------------------------------------------------ generation
 def rand_val(rng, pnan=0.3, pinf=0.0):
@@ -734,7 +737,7 @@ def gen_cases(rng, tier):
     cases = []
     for _ in range(110 if q else 1500):                      # df_sync: every policy x method, random column policy
         tr = rand_collection(rng)
-        ex = rand_explicit(rng); ex['as'] = 'idx'
+        ex = rand_explicit(rng)            # the explicit index as pd.Index, as a timeseries or as dict(index=..)
         for how in POLICIES + [ex]:
             for m in METHODS:
                 cases.append({'kind': 'sync', 'tree': tr, 'how': how, 'method': m, 'columns': rng.choice(['ij', 'ij', 'oj', 'lj', 'rj', None])})
@@ -750,7 +753,7 @@ def gen_cases(rng, tier):
                 cases.append({'kind': 'reindex', 'tree': tr, 'how': how, 'method': m})
     for _ in range(150 if q else 2000):                      # df_index
         tr = rand_collection(rng) if rng.random() < 0.8 else rand_arrays(rng)
-        hows = POLICIES + ([dict(rand_explicit(rng), **{'as': 'idx'})] if not any(is_arrj(l) for l in leaves(tr)) else [])
+        hows = POLICIES + ([dict(rand_explicit(rng), **{'as': rng.choice(['idx', 'ts', 'dict'])})] if not any(is_arrj(l) for l in leaves(tr)) else [])
         for how in hows:
             cases.append({'kind': 'index', 'tree': tr, 'how': how})
     for _ in range(50 if q else 700):                        # presync: recording function of 1-3 arguments
@@ -837,6 +840,10 @@ def gen_cases(rng, tier):
         arrs = {'L': [{'A': [rand_val(rng, 0.3) for _ in range(rng.randrange(100, 151))]},
                       {'A2': {'k': 2, 'rows': [[rand_val(rng, 0.3), rand_val(rng, 0.3)] for _ in range(rng.randrange(100, 151))]}}]}
         cases.append({'kind': 'sync', 'tree': arrs, 'how': rng.choice(POLICIES), 'method': rng.choice(METHODS), 'columns': 'ij'})
+    for _ in range(25 if q else 250):                        # df_reindex(obj, None, method): no index prescribed -> unchanged (oracle only)
+        tr = rand_collection(rng)
+        for m in METHODS:
+            cases.append({'kind': 'reindex', 'tree': tr, 'how': None, 'method': m, 'nomodel': True})
     for _ in range(10 if q else 60):                         # not a container: returned as is
         cases.append({'kind': 'sync', 'tree': rand_ts(rng, index_family(rng, 1)[0]), 'how': rng.choice(POLICIES), 'method': rng.choice(METHODS), 'columns': 'ij'})
     for c in cases:
@@ -867,7 +874,7 @@ def decorate(rng, case):
         c['d0'] = rng.choice(['1900-01-01', '2020-02-29T13:45:10.000123', '2250-12-31', '2020-01-01'])
     if rng.random() < 0.3 and not c.get('via') in ('attr', 'argname'):
         sp = {}
-        if not isinstance(c['how'], dict):
+        if isinstance(c['how'], str):
             sp['how'] = rng.choice(HOW_SPELL[c['how'][0]])
         if c.get('method'):
             sp['method'] = rng.choice(METHOD_SPELL[c['method']])
@@ -876,6 +883,8 @@ def decorate(rng, case):
         if isinstance(c.get('columns'), str) and c['kind'] in ('sync', 'presync'):
             sp['columns'] = rng.choice(HOW_SPELL[c['columns'][0]])
         c['spell'] = sp
+    if c['kind'] == 'sync' and c.get('columns') is None and rng.random() < 0.5:
+        c['colfalse'] = True                     # columns=False is the other spelling of 'leave the columns alone'
     if rng.random() < 0.25:                      # timezone-aware indices, every member in the same zone
         c['tz'] = rng.choice(['UTC', 'Europe/London', 'US/Eastern', 'Asia/Tokyo'])
     if c['kind'] in ('sync', 'reindex'):         # the same objects aligned again with another fill method
